@@ -1,9 +1,11 @@
 package main
 
 import (
+	"encoding/json"
 	"flag"
 	"fmt"
 	"os"
+	"path/filepath"
 	"runtime"
 	"sort"
 	"strings"
@@ -68,6 +70,31 @@ func main() {
 		names := sortedKeys(m.funcs)
 		fmt.Println(len(names), "functions")
 		fmt.Println("no escaping pointers into slice/array elements:", m.noElemPtrs, m.elemPtrSites)
+	case "locals":
+		// records the shape of the named locals of every function under contract (rename tolerance)
+		tab := map[string][]localShape{}
+		for _, n := range m.spec.Order {
+			if f := m.funcs[n]; f != nil {
+				if sh := localShapes(f); len(sh) > 0 {
+					tab[n] = sh
+				}
+			}
+		}
+		data, _ := json.MarshalIndent(tab, "", " ")
+		os.WriteFile(filepath.Join(toolRoot(), "locals.json"), data, 0o644)
+		fmt.Println("wrote locals.json for", len(tab), "functions")
+		ptab := map[string][]string{}
+		for _, n := range m.spec.Order {
+			if f := m.funcs[n]; f != nil {
+				var ns []string
+				for _, p := range f.Params {
+					ns = append(ns, p.Name())
+				}
+				ptab[n] = ns
+			}
+		}
+		data, _ = json.MarshalIndent(ptab, "", " ")
+		os.WriteFile(filepath.Join(toolRoot(), "params.json"), data, 0o644)
 	case "funcs":
 		for _, n := range sortedKeys(m.funcs) {
 			fmt.Println(n)
